@@ -69,7 +69,7 @@ def load_kani_obligations():
             o = dict(
                 backend='kani', file=fn, props=kv.get('props', '').split(','), tier=kv.get('tier', 'quick'),
                 kind=kv.get('kind', 'harness-contract'), mem_gb=float(kv.get('mem', '6')),
-                timeout_s=int(kv.get('timeout', '900')), fns=[], clause='', bounded=None, expect='pass',
+                timeout_s=int(kv.get('timeout', '1800')), fns=[], clause='', bounded=None, expect='pass',
                 known=None, contracts=kv.get('contracts') == 'yes', stubbing=kv.get('stubbing') == 'yes',
                 est_s=int(kv.get('est', '60')), uses=[])
             i += 1
